@@ -82,6 +82,10 @@ impl Engine {
         Ok(Engine { child, stdin, rx, start, log: vec![], cursor: 0, stderr_bytes: 0 })
     }
 
+    pub fn pid(&self) -> u32 {
+        self.child.id()
+    }
+
     pub fn now(&self) -> Duration {
         self.start.elapsed()
     }
